@@ -8,10 +8,17 @@ check("C17", "model_checking",
       "characters and 15 representatives of 8 classes of non-token characters (non-ASCII letters, decimal digits incl. non-BMP, other numerics, "
       "other white space, combining marks, connectors, BOM, NUL/controls/emoji), each representative between 33 x 27 contexts; all strings of "
       "length <=5/6 over {1 . e E + - a _} (number grammar) and sampled embeddings; 3 024 file beginnings x bodies x endings (BOM, CR LF, lone "
-      "CR, NUL, no final newline ...); sampled texts with up to 65 537 lines / 131 073 columns. Bounded-exhaustive, not a proof.",
+      "CR, NUL, no final newline ...); sampled texts with up to 65 537 lines / 131 073 columns; each of the 128 7-bit characters between 10 x 12 "
+      "contexts (before LF / CR LF / end / digit / letter, inside strings and comments, with further lines behind it) and every pair of 7-bit "
+      "characters in 1/4 contexts. Every recorded Int / Float token carries its VALUE and the specification (SyltLexNum: decimal strings "
+      "compared symbolically, i64 limit, double range and rounding boundaries) decides kind and value: digit runs around 2^k and 10^k x 10 "
+      "variations x leading zeros x contexts, integer part x float tail x contexts at the limits of the double range, digit runs of up to 310 "
+      "digits in every number form. Bounded-exhaustive, not a proof.",
       "Trusted: TLC, the SyltLex module as the reading of 'documented token set' (ASCII-only identifier, digit and blank classes), the recorder "
       "c17 (maps Token variants to kinds and every character outside the token alphabet to the ASCII stand-in of its Unicode class by a table "
       "that is cross-checked against std's predicates). Error-token extents are unconstrained. For the long texts only the window and sampled "
-      "tokens of the periodic prefix are compared (positions still derived from the whole text). Two known findings (C17.U1, C17.U2: the [\\d] "
+      "tokens of the periodic prefix are compared (positions still derived from the whole text). Number values are compared as strings (Int "
+      "decimal, Float in the recorder's shortest round-trip form {:e}); a float's class (zero/finite/inf) is always decided, its exact value for "
+      "<= 15 significant digits and exponents -300..300; a digit run that does not fit i64 is specified as ONE Error token of that extent. Two known findings (C17.U1, C17.U2: the [\\d] "
       "of the number regexes is Unicode-aware) are reported as KNOWN-FINDING.",
       "TLA+ lexer spec + TLC trace validation of recorded token streams (index-addressed universes, sharded)", "DESIGN.md 5.1, 8/C17; docs/C17.md")
